@@ -6,6 +6,7 @@
 import Rpki.Props.C01
 import Rpki.Model.SigObj
 import Rpki.Proofs.SigObjAttrs
+import Rpki.Proofs.CmsDerLemmas
 namespace Rpki.Props.C02
 set_option autoImplicit false
 open Rpki.Chain Rpki.Cert Rpki.SigObj Rpki.Der
@@ -235,5 +236,56 @@ theorem attrs_too_long_rejected (strict : Bool) (attrs : Bytes) (h : attrs.lengt
 over the DER SET OF (`31 81 80 …`) could not verify; this instance is decided by evaluation -/
 example : encodeVerify (List.replicate 128 0) = some (0x31 :: 0x81 :: 128 :: List.replicate 128 0) := by
   simp [encodeVerify, Rpki.Consts.encodeVerifyDerLength, Rpki.Consts.encodeVerifyShort, Rpki.Consts.encodeVerifyMid]
+
+/-! ### the same on octets (strict decoding)
+
+`Model/CmsDer.lean` reads a whole signed object from its octets (tied to `SignedObject::decode`, `Roa` /
+`Aspa` / `Manifest::decode` by the `cmsd` operations and by every strict C02 case, whose model verdict is
+computed from the octets).  For every octet string that decodes, acceptance implies the conditions of the
+statement for what was read from those octets; the inputs left outside are the two verdicts of the
+signature primitive and the octets the object's signature was made over. -/
+section Octets
+open Rpki.CmsDer Rpki.CertDer
+
+theorem accepted_object_octets (b : Bytes) (o : SigObjD) (hb : AllBytes b) (hd : decodeSigObj b = some o)
+    (sigKeyOk eeSigOk : Bool) (sigInput : Bytes) (i r : RC) (now : Int) (hi : C01.RC.Canon i)
+    (h : validateAt Sha.sha256N (toObj o sigKeyOk sigInput eeSigOk) i now = some r) :
+    Sha.sha256N o.content = o.messageDigest ∧ sigKeyOk = true ∧ sigInput = tlv 0x31 o.attrs ∧
+    o.sid = o.cert.ski ∧ eeSigOk = true ∧ o.cert.validity.nb ≤ now ∧ now ≤ o.cert.validity.na ∧
+    o.cert.aki = some i.ski ∧ o.cert.ski = Sha.sha1N o.cert.keyBits ∧ C01.RC.Canon r ∧ C01.RC.Sub r i := by
+  obtain ⟨hpa, cc, rest, hcc, htc⟩ := decodeSigObj_spec b o hb hd
+  obtain ⟨md, st, h1, h2, h3, h4, h5, h6⟩ := (validateAt_iff _ _ i now r).1 h
+  have hpa' : parseAttrs true o.attrs = some (o.contentType, md, st) := h1
+  rw [hpa] at hpa'
+  simp only [Option.some.injEq, Prod.mk.injEq] at hpa'
+  obtain ⟨_, e1, _⟩ := hpa'
+  have hdc : decodeCert cc = some o.cert := by unfold decodeCert; rw [htc]; rfl
+  obtain ⟨a1, a2, a3, a4, a5, a6, a7⟩ :=
+    C01.accepted_octets cc o.cert hcc hdc true eeSigOk i r now hi (Or.inr h6)
+  exact ⟨by rw [e1]; exact h3, h4, h5, h2, a1, a2, a3, a4, a5, a6, a7⟩
+
+/-- any single violation rejects, whatever the octets -/
+theorem tampered_object_octets (b : Bytes) (o : SigObjD) (hb : AllBytes b) (hd : decodeSigObj b = some o)
+    (sigKeyOk eeSigOk : Bool) (sigInput : Bytes) (i : RC) (now : Int)
+    (hbad : sigKeyOk = false ∨ sigInput ≠ tlv 0x31 o.attrs ∨ o.sid ≠ o.cert.ski ∨
+            Sha.sha256N o.content ≠ o.messageDigest ∨ eeSigOk = false ∨ now < o.cert.validity.nb ∨
+            o.cert.validity.na < now ∨ o.cert.aki ≠ some i.ski ∨ o.cert.ski ≠ Sha.sha1N o.cert.keyBits) :
+    validateAt Sha.sha256N (toObj o sigKeyOk sigInput eeSigOk) i now = none := by
+  obtain ⟨hpa, _⟩ := decodeSigObj_spec b o hb hd
+  apply single_fault_rejects
+  rcases hbad with h | h | h | h | h
+  · exact Or.inl h
+  · exact Or.inr (Or.inl h)
+  · exact Or.inr (Or.inr (Or.inl h))
+  · refine Or.inr (Or.inr (Or.inr (Or.inl ?_)))
+    intro md st hp
+    have hp' : parseAttrs true o.attrs = some (o.contentType, md, st) := hp
+    rw [hpa] at hp'
+    simp only [Option.some.injEq, Prod.mk.injEq] at hp'
+    rw [← hp'.2.1]; exact h
+  · refine Or.inr (Or.inr (Or.inr (Or.inr ?_)))
+    exact (C01.single_fault_rejects (toFacts o.cert false true eeSigOk) i now h).2.1
+
+end Octets
 
 end Rpki.Props.C02
